@@ -98,6 +98,14 @@ impl Stack {
     }
 }
 
+#[cfg(feature = "verif-hooks")]
+impl Stack {
+    /// verification hook: weak handles of the cells `push` created since the last reset
+    pub fn verif_cells(&self) -> &[Weak<RefCell<StackObject>>] {
+        &self.cells
+    }
+}
+
 /// Reference-counted wrapper around a stack object with interior mutability.
 ///
 /// This type enables shared ownership of stack objects while allowing mutation,
